@@ -126,11 +126,22 @@ func cmdCheck(args []string) int {
 			if *only != "" && !strings.Contains(key, *only) {
 				continue
 			}
+			var loopNote string
 			if err := eng.checkBinding(fc, fn); err != nil {
-				bindErrs = append(bindErrs, err.Error())
-				continue
+				if _, isLoop := err.(loopBindErr); !isLoop {
+					bindErrs = append(bindErrs, err.Error())
+					continue
+				}
+				// the loop annotations no longer match the code: verify without
+				// them; clauses that needed them will fail by name
+				fc.loops = nil
+				loopNote = "loop annotations no longer bind and were dropped: " + err.Error()
+				fmt.Println("note:", loopNote)
 			}
 			u := eng.newUnit(fn, fc)
+			if loopNote != "" {
+				u.notes[loopNote] = true
+			}
 			units = append(units, u)
 		}
 	}
@@ -170,7 +181,7 @@ func cmdCheck(args []string) int {
 	if !*keep {
 		defer os.RemoveAll(work)
 	}
-	d := &discharger{dir: work, seed: seed, timeoutMs: 10000, retryMs: 30000, par: 14}
+	d := &discharger{dir: work, seed: seed, timeoutMs: 10000, retryMs: 30000, par: 8}
 	if *tier == "thorough" {
 		d.timeoutMs, d.retryMs = 30000, 120000
 	}
@@ -198,7 +209,7 @@ func cmdCheck(args []string) int {
 			}
 		}
 	}
-	cd := &discharger{dir: work, seed: seed, timeoutMs: 5000, retryMs: 5000, par: 14}
+	cd := &discharger{dir: work, seed: seed, timeoutMs: 5000, retryMs: 5000, par: 8}
 	cd.allCovers(coverJobs)
 	var vacuous []string
 	for _, j := range coverJobs {
@@ -361,7 +372,7 @@ func (e *engine) checkBinding(fc *funcContract, fn *ssa.Function) error {
 	loops := loopsOf(fn)
 	for k, ls := range fc.loops {
 		if k < 1 || k > len(loops) {
-			return fmt.Errorf("%s:%d: %s has %d loops, contract names loop %d", fc.file, ls.line, fc.key, len(loops), k)
+			return loopBindErr(fmt.Sprintf("%s:%d: %s has %d loops, contract names loop %d", fc.file, ls.line, fc.key, len(loops), k))
 		}
 		if ls.hint != "" && loops[k-1].stmt != nil {
 			txt := e.srcText(loops[k-1].stmt)
@@ -369,7 +380,7 @@ func (e *engine) checkBinding(fc *funcContract, fn *ssa.Function) error {
 				txt = txt[:i]
 			}
 			if !strings.Contains(strings.Join(strings.Fields(txt), " "), strings.Join(strings.Fields(ls.hint), " ")) {
-				return fmt.Errorf("%s:%d: loop %d of %s: hint %q does not occur in %q", fc.file, ls.line, k, fc.key, ls.hint, strings.TrimSpace(txt))
+				return loopBindErr(fmt.Sprintf("%s:%d: loop %d of %s: hint %q does not occur in %q", fc.file, ls.line, k, fc.key, ls.hint, strings.TrimSpace(txt)))
 			}
 		}
 	}
@@ -392,3 +403,7 @@ func (e *engine) checkBinding(fc *funcContract, fn *ssa.Function) error {
 	}
 	return nil
 }
+
+type loopBindErr string
+
+func (e loopBindErr) Error() string { return string(e) }
